@@ -37,6 +37,7 @@ FALSE_VERDICTS = (
     "unreachable",  # call of vx_unreachable => "precondition not satisfied" normally
     "index out of bounds",
     "recommendation not met",
+    "fails to satisfy `callee.requires",
 )
 RLIMIT_MARKERS = ("rlimit exceeded", "Resource limit", "resource limit", "timed out")
 
